@@ -163,6 +163,8 @@ class Fn:
     def _walkers(self):
         if getattr(self, '_wk', None) is None:
             wk = {}
+            self._wk = {}               # (the base of a walker is rendered below: not in walk mode, and not re-entering here)
+            oldw, self._walk = getattr(self, '_walk', False), False
             decl = {}
             for _, e in self.elements():
                 if e['k'] == 'DeclStmt':
@@ -188,6 +190,7 @@ class Fn:
                                     st.extend(self.strip_all_casts(z) for z in y['c'])
                         wk[x['vid']] = base      # None for integer counters
             self._wk = wk
+            self._walk = oldw
         return self._wk
 
     def _walk_elem(self, base, idx):
@@ -513,7 +516,7 @@ class Fn:
             txt = self.render(inner, depth + 6, resolve)
             nb = self._narrowed_bits(init, inner)
             return 'narrow%d(%s)' % (nb, txt) if nb else txt
-        if resolve and k == 'DeclRefExpr' and n.get('v') is not None and n.get('vid') is None and n.get('dk') == 'Var':
+        if resolve and k == 'DeclRefExpr' and n.get('v') is not None and n.get('vid') is None and n.get('dk') in ('Var', 'EnumConstant'):
             return str(n['v'])
         c = n.get('c') or []
         if k in TRANSPARENT and c:
@@ -548,6 +551,11 @@ class Fn:
             w = self._walk_elem(c[0], None)
             if w:
                 return w
+        if k == 'UnaryOperator' and n['op'] == '*' and c:
+            # *(p + i) is p[i]
+            m = self.strip(c[0])
+            if m['k'] == 'BinaryOperator' and m.get('op') == '+' and '*' in (self.N(m['c'][0]).get('t') or '') and '*' not in (self.N(m['c'][1]).get('t') or ''):
+                return '%s[%s]' % (r(m['c'][0]), r(m['c'][1]))
         if k == 'UnaryOperator':
             op = n['op']
             if op.startswith('post'):
